@@ -34,6 +34,7 @@ def decl_specs(tier):
         specs.append({'names': ['i2', c], 'wrapper': 'c', 'shared': {'endianness': 'little'}})
     for c in ('i1', 'dn', 'sn', 'r1', 'b35', 'p_at3', 'rs', 'o1'):
         specs.append({'names': [c, 'i3', c], 'wrapper': 'a', 'opts': {'generate_for_pack': False, 'generate_for_unpack': False}})
+    specs.extend(alphabet.families())
     return specs
 
 
